@@ -14,7 +14,7 @@ vars == <<sent, started, running, checking, docs, snap, toReply, wire>>
 
 None == [c |-> 0, v |-> 0]
 Ops == [k : {"open", "change"}, u : URIs, c : Contents, v : 1..MaxOps, id : {0}]
-       \cup [k : {"close", "change0"}, u : URIs, c : {0}, v : {0}, id : {0}]
+       \cup [k : {"close", "change0", "save", "cancel"}, u : URIs, c : {0}, v : {0}, id : {0}]
        \cup [k : {"def"}, u : URIs, c : {0}, v : {0}, id : 1..MaxOps]
 
 Init == /\ sent = <<>> /\ started = 0 /\ running = {} /\ checking = {} /\ toReply = {}
